@@ -448,7 +448,7 @@ func exhausted(t *Trace, a spec.Action) bool {
 		return false
 	}
 	last := invs[len(invs)-1]
-	if last.Out == plug.Permanent || last.Out == plug.WrongType || last.Out == plug.WrongTypeErr {
+	if last.Out == plug.Permanent || last.Out == plug.WrongType || last.Out == plug.WrongTypeErr || last.Out == plug.WrongPtr {
 		return true
 	}
 	return len(invs) >= a.Retries+1
@@ -592,7 +592,7 @@ func Consistency(prop string, ps *spec.Plan, t *Trace, p *spec.PlanView, withTok
 				if at.HasErr {
 					got = at.ErrMsg
 				}
-				if last.Out != plug.Overrun && last.Out != plug.WrongType && last.Out != plug.WrongTypeErr && !strings.HasSuffix(got, want) {
+				if last.Out != plug.Overrun && last.Out != plug.WrongType && last.Out != plug.WrongTypeErr && last.Out != plug.WrongPtr && !strings.HasSuffix(got, want) {
 					add("attempt-token", "", "action %s: final attempt carries %q, the plugin's last invocation was %s (%s)", o.Addr, got, want, last.Out)
 				}
 			}
@@ -695,7 +695,7 @@ func C05(ps *spec.Plan, t *Trace, final *spec.PlanView) []ev.Violation {
 		cur := []Inv{}
 		for _, inv := range invs {
 			cur = append(cur, inv)
-			terminal := inv.Out == plug.OK || inv.Out == plug.Permanent || inv.Out == plug.WrongType || inv.Out == plug.WrongTypeErr || len(cur) >= a.Retries+1
+			terminal := inv.Out == plug.OK || inv.Out == plug.Permanent || inv.Out == plug.WrongType || inv.Out == plug.WrongTypeErr || inv.Out == plug.WrongPtr || len(cur) >= a.Retries+1
 			if isCont && terminal {
 				runs = append(runs, cur)
 				cur = []Inv{}
@@ -712,7 +712,7 @@ func C05(ps *spec.Plan, t *Trace, final *spec.PlanView) []ev.Violation {
 				if k == len(run)-1 {
 					break
 				}
-				if inv.Out == plug.OK || inv.Out == plug.Permanent || inv.Out == plug.WrongType || inv.Out == plug.WrongTypeErr {
+				if inv.Out == plug.OK || inv.Out == plug.Permanent || inv.Out == plug.WrongType || inv.Out == plug.WrongTypeErr || inv.Out == plug.WrongPtr {
 					add("call-after-final", inv.Out, "action %s: invoked again (call %d) after call %d ended %q", a.Tag, run[k+1].N, inv.N, inv.Out)
 				}
 				if inv.Out != plug.Overrun && (inv.End < 0 || inv.End > run[k+1].Begin) {
@@ -759,7 +759,7 @@ func C05(ps *spec.Plan, t *Trace, final *spec.PlanView) []ev.Violation {
 					if !at.HasErr || !at.Perm || at.ErrMsg != "P:"+tok {
 						add("attempt-content", "permanent", "action %s attempt %d: want permanent error P:%s, stored err=%q perm=%v", a.Tag, k, tok, at.ErrMsg, at.Perm)
 					}
-				case plug.WrongType, plug.WrongTypeErr:
+				case plug.WrongType, plug.WrongTypeErr, plug.WrongPtr:
 					if !at.HasErr || !at.Perm || at.HasResp {
 						add("attempt-content", "wrongtype", "action %s attempt %d: a response of the wrong type must give a permanent error and no stored response; stored err=%q perm=%v resp=%v", a.Tag, k, at.ErrMsg, at.Perm, at.HasResp)
 					}
@@ -849,7 +849,7 @@ func groupOutcome(t *Trace, c *spec.Checks, firstRunOnly bool) string {
 		var run []Inv
 		for _, inv := range invs {
 			run = append(run, inv)
-			if inv.Out == plug.OK || inv.Out == plug.Permanent || inv.Out == plug.WrongType || inv.Out == plug.WrongTypeErr || len(run) >= a.Retries+1 {
+			if inv.Out == plug.OK || inv.Out == plug.Permanent || inv.Out == plug.WrongType || inv.Out == plug.WrongTypeErr || inv.Out == plug.WrongPtr || len(run) >= a.Retries+1 {
 				break
 			}
 		}
@@ -858,7 +858,7 @@ func groupOutcome(t *Trace, c *spec.Checks, firstRunOnly bool) string {
 			return ""
 		}
 		if last.Out != plug.OK {
-			if last.Out == plug.Permanent || last.Out == plug.WrongType || last.Out == plug.WrongTypeErr || len(run) >= a.Retries+1 {
+			if last.Out == plug.Permanent || last.Out == plug.WrongType || last.Out == plug.WrongTypeErr || last.Out == plug.WrongPtr || len(run) >= a.Retries+1 {
 				return "fail"
 			}
 			return ""
@@ -964,7 +964,7 @@ func contFirstRunFailed(t *Trace, c *spec.Checks) bool {
 		var run []Inv
 		for _, inv := range invs {
 			run = append(run, inv)
-			if inv.Out == plug.OK || inv.Out == plug.Permanent || inv.Out == plug.WrongType || inv.Out == plug.WrongTypeErr || len(run) >= a.Retries+1 {
+			if inv.Out == plug.OK || inv.Out == plug.Permanent || inv.Out == plug.WrongType || inv.Out == plug.WrongTypeErr || inv.Out == plug.WrongPtr || len(run) >= a.Retries+1 {
 				break
 			}
 		}
@@ -972,7 +972,7 @@ func contFirstRunFailed(t *Trace, c *spec.Checks) bool {
 			continue
 		}
 		last := run[len(run)-1]
-		if last.End >= 0 && last.Out != plug.OK && (last.Out == plug.Permanent || last.Out == plug.WrongType || last.Out == plug.WrongTypeErr || len(run) >= a.Retries+1) {
+		if last.End >= 0 && last.Out != plug.OK && (last.Out == plug.Permanent || last.Out == plug.WrongType || last.Out == plug.WrongTypeErr || last.Out == plug.WrongPtr || len(run) >= a.Retries+1) {
 			return true
 		}
 	}
@@ -1035,7 +1035,7 @@ func C07(ps *spec.Plan, t *Trace, final *spec.PlanView) C07Result {
 				switch inv.Out {
 				case plug.OK:
 					run = 0
-				case plug.Permanent, plug.WrongType, plug.WrongTypeErr:
+				case plug.Permanent, plug.WrongType, plug.WrongTypeErr, plug.WrongPtr:
 					failed = true
 				default:
 					failed = run >= a.Retries+1
@@ -1130,7 +1130,7 @@ func C07(ps *spec.Plan, t *Trace, final *spec.PlanView) C07Result {
 			n := 0
 			for _, inv := range invs {
 				n++
-				if inv.Out == plug.OK || inv.Out == plug.Permanent || inv.Out == plug.WrongType || inv.Out == plug.WrongTypeErr || n >= a.Retries+1 {
+				if inv.Out == plug.OK || inv.Out == plug.Permanent || inv.Out == plug.WrongType || inv.Out == plug.WrongTypeErr || inv.Out == plug.WrongPtr || n >= a.Retries+1 {
 					runs++
 					n = 0
 				}
